@@ -14,6 +14,7 @@ import (
 func init() {
 	register(&Property{
 		ID:      "C12",
+		NeedGen: true,
 		Runtime: RuntimeCore,
 		Run:     runC12,
 		Explanation: "Mutual exclusion and exactly-once terminal markers of the streamed HTTP transports: (shared-writer) when a transport hands its ResponseWriter to a goroutine (SSE keep-alive, multipart/mixed flush ticker), every " +
@@ -289,6 +290,10 @@ func runC12(c *Ctx) {
 	streamLoopExits(c)
 	c12FormatConstant(c)
 	c12WriterGoroutineBounded(c)
+	c12Round2(c)
+	// hasNext decides between the separating and the closing boundary: the counters behind it (C13/accounting)
+	c13Accounting(c)
+	deferredCounterCompared(c)
 }
 
 // writerSpawn: a goroutine started (directly or in a same-package helper) by a transport's Do that can reach the ResponseWriter.
